@@ -312,6 +312,15 @@ func (h *history) check(opClass string) {
 	}
 	s := inspect(h.t)
 	if len(s.problems) > 0 {
+		if opClass == "add-rename-dup-crosses-leaf" {
+			// the narrow class is only the order/uniqueness failure between neighbouring leaves;
+			// wrong limits or empty nodes after a rename-mode Add are a different failure
+			for _, p := range s.problems {
+				if !strings.HasPrefix(p, "keys not strictly sorted") {
+					opClass = "add-breaks-invariant"
+				}
+			}
+		}
 		h.fail(opClass, strings.Join(s.problems, "; ")+" tree="+h.t.String())
 		return
 	}
